@@ -122,8 +122,10 @@ Definition step (L : ledger) (o : op) : ledger * out :=
         let g := if direct then c_gas c - c_etxgas c else 0 in
         match claim_check L c with
         | None =>
-            (* direct call: error; through the EVM the outer frame still succeeds *)
-            (L, RClaim (negb direct) g None (read L k))
+            (* direct call: error.  Through the EVM the callers swallow the failure and the outer
+               call succeeds, except for common.ErrExternalAddress (external beneficiary), which
+               opCall propagates as a hard failure of every enclosing frame *)
+            (L, RClaim (negb direct && internal (c_miner c)) g None (read L k))
         | Some r =>
             let pd := mkPaid (r_bal r) (c_to c) (c_caller c) (c_etxgas c) in
             match m with
